@@ -13,7 +13,7 @@ const char *verif_property_id = "C18";
 const char *verif_rule =
     "tape -> scenario from the catalogue {context + endpoint + resources set-up and tear-down; GET request/response (CON, NON); PUT with payload; Block1 upload; Block2 download; "
     "observe register + notifications + cancel + resource deletion; async separate response; OSCORE exchange; URI / optlist helpers; .well-known/core with attributes; TCP session with "
-    "CSM and request; cache key / cache entry}, scenario parameters (sizes, token lengths, option counts) and the index k (and optionally a second index k2 > k) of the request to "
+    "CSM and request; cache key / cache entry; context created with its listening address}, scenario parameters (sizes, token lengths, option counts) and the index k (and optionally a second index k2 > k) of the request to "
     "coap_malloc_type()/coap_realloc_type() that returns NULL; the enumeration tier walks every k of every scenario with default parameters. Client and server are both libcoap, so the "
     "failing allocation hits whichever side performs it. Oracle: no sanitizer report, failed assertion or abort and the case returns; the harness follows the documented ownership rules "
     "(a PDU given to coap_send() is never touched again, other objects are released by their owner); after all contexts are freed the allocation table is empty, nothing was released "
@@ -33,6 +33,7 @@ struct Fx {   // one client and one server context in one world
   coap_resource_t *obs_res = nullptr;
   Bytes big;
   bool app_block1_ok = false;
+  bool setup_ok = false;   // setup() ran to its end: both contexts, the endpoint, all resources and the client session exist
 };
 Fx *F = nullptr;
 
@@ -121,6 +122,7 @@ bool setup(Fx &f, coap_proto_t proto, uint32_t block_mode, const std::string *os
     if (!conf) return false;
     f.session = coap_new_client_session_oscore(f.cctx, nullptr, &dst, proto, conf);
   } else f.session = coap_new_client_session(f.cctx, nullptr, &dst, proto);
+  f.setup_ok = f.session != nullptr;
   return f.session != nullptr;
 }
 
@@ -146,7 +148,7 @@ bool request(Fx &f, coap_pdu_type_t type, coap_pdu_code_t code, const char *path
   return coap_send(f.session, pdu) != COAP_INVALID_MID;
 }
 
-const char *SC_NAMES[] = {"setup-teardown", "get-con", "get-non", "put-payload", "block1-upload", "block2-download", "observe", "async", "oscore", "uri-helpers", "well-known-core", "tcp", "cache"};
+const char *SC_NAMES[] = {"setup-teardown", "get-con", "get-non", "put-payload", "block1-upload", "block2-download", "observe", "async", "oscore", "uri-helpers", "well-known-core", "tcp", "cache", "context-with-listen-address"};
 const unsigned NSC = sizeof SC_NAMES / sizeof SC_NAMES[0];
 
 std::string oscore_conf(bool server) {
@@ -270,6 +272,14 @@ void run_scenario(unsigned sc, Tape &t, Fx &f) {
     request(f, COAP_MESSAGE_CON, COAP_REQUEST_CODE_GET, "r", token, -1, nullptr, false);
     f.w.run(f.w.now + 200000, 40000);
     break;
+  case 13: {
+    // the listening address given to the constructor: the endpoint is created inside coap_new_context()
+    coap_address_t la;
+    SRV.to_coap(&la);
+    f.sctx = coap_new_context(&la);
+    if (f.sctx) f.w.add_context(f.sctx);
+    break;
+  }
   default: {
     if (!setup(f, COAP_PROTO_UDP, bm, nullptr, nullptr)) break;
     coap_pdu_t *pdu = coap_new_pdu(COAP_MESSAGE_CON, COAP_REQUEST_CODE_GET, f.session);
@@ -344,13 +354,16 @@ void verif_init() {
 
 int verif_case(const uint8_t *tape, size_t tlen, Info *info) {
   Tape t(tape, tlen);
-  unsigned sc = t.u8() % NSC;
+  // (scenarios added after the first 13 take the byte values at the top, so that earlier tapes keep their scenario)
+  unsigned raw = t.u8();
+  unsigned sc = (raw >= 247 && raw <= 254) ? 13 + (raw - 247) % (NSC - 13) : raw % 13;
   unsigned k = t.range(0, 399);
   int k2 = t.chance(24) ? (int)(k + 1 + t.range(0, 40)) : -1;
   if (getenv("VERIF_TIER") && !strcmp(getenv("VERIF_TIER"), "quick")) k2 = -1;
   int verdict = HELD;
   std::string site;
   uint64_t requests = 0, failed = 0, setup_requests = 0;
+  int followup_failed = 0;
   {
     Fx f;
     F = &f;
@@ -365,6 +378,17 @@ int verif_case(const uint8_t *tape, size_t tlen, Info *info) {
     site = site_name(A.fail_site);
     // memory is available again for the tear-down (the failure to inject was "a single allocation")
     A.fail_at = A.fail_at2 = -1;
+    // "the next operation with memory available succeeds" - on the objects that survived, not only on new ones: a plain GET on the same
+    // UDP session is answered (after whatever is still being retransmitted has ended).  Not asked of the OSCORE and TCP scenarios,
+    // where dropping the association / the connection is an admissible way of failing.
+    if (failed && f.setup_ok && sc != 8 && sc != 11 && sc != 13) {
+      unsigned before = f.responses;
+      bool sent = request(f, COAP_MESSAGE_CON, COAP_REQUEST_CODE_GET, "r", {0xcb, 0x01}, -1, nullptr, false);
+      f.w.steps = 0;
+      if (sent) f.w.run(f.w.now + 400000, 60000);
+      if (!sent || f.responses == before) followup_failed = sent ? 2 : 1;
+      info->label("follow-up-on-same-session");
+    }
     teardown(f);
     F = nullptr;
   }
@@ -383,6 +407,10 @@ int verif_case(const uint8_t *tape, size_t tlen, Info *info) {
     verdict = VIOLATION;
   } else if (__lsan_do_recoverable_leak_check()) { info->fail("%s: LeakSanitizer reports unreachable memory after tear-down", hb); verdict = VIOLATION; }
   A.reset();
+  if (verdict == HELD && followup_failed) {
+    info->fail("%s: afterwards, with memory available, a plain CON GET on the same session %s", hb, followup_failed == 1 ? "is refused by coap_send()" : "gets no response");
+    verdict = VIOLATION;
+  }
   if (verdict == HELD) {
     // canary with memory available: a fresh exchange works
     Fx f;
@@ -409,7 +437,7 @@ size_t verif_enum(uint64_t i, std::vector<uint8_t> *tape) {
   const uint64_t KMAX = 400;
   if (tape) {
     unsigned sc = (unsigned)(i % NSC), k = (unsigned)(i / NSC);
-    *tape = {(uint8_t)sc, (uint8_t)(k & 0xff), (uint8_t)(k >> 8), 0x00};
+    *tape = {(uint8_t)(sc < 13 ? sc : 247 + (sc - 13)), (uint8_t)(k & 0xff), (uint8_t)(k >> 8), 0x00};
   }
   return NSC * KMAX;
 }
